@@ -59,7 +59,10 @@ def guard_project(project, rng, nruns):
     for unit, sc in G.scripts_of(project):
         if unit[0] == "fx" and unit[1] in pre_run:
             continue                        # (the pre_run phase may only raise: nothing to replace the act with)
+        inner_of_api_call = [id(b) for a in G.iter_acts(sc) if a.get("via") for b in a["script"]]
         for a in G.iter_acts(sc):
+            if id(a) in inner_of_api_call:
+                continue                    # (the raise inside `save_attachment_file`: guarded with the call, not by itself)
             if G.act_fails(a) and rng.random() < 0.75:
                 a["only_in_run"] = rng.choice([1, 1] + list(range(1, nruns + 1)))
                 if a["a"] == "raise" and a["kind"] in ABORTS and a["only_in_run"] < nruns:
